@@ -278,3 +278,33 @@ fn replay_c20_digests_bind_content() {
     for f in failures.iter().take(4) { println!("FAILING-INPUT property=C20 {}", f); }
     assert!(failures.is_empty(), "C20 violated on the real code: {:?}", failures);
 }
+
+// ---------------------------------------------------------------------------------------------------------------
+// Functions whose contracts are ASSUMED in the Verus units because their bodies are iterator-adapter chains
+// (Committee::broadcast_addresses, TC::high_qc_rounds): the assumed contract, checked on the real code.
+// bin/check runs this whenever the source text of one of them differs from the pinned baseline.
+// ---------------------------------------------------------------------------------------------------------------
+#[test]
+fn replay_assumed_contracts_consensus() {
+    let mut failures = Vec::new();
+    for stakes in [vec![1u32, 1, 1, 1], vec![1, 2, 3], vec![5], vec![0, 1, 1, 1, 1, 2]] {
+        let (c, ks) = committee_with_stakes(&stakes);
+        for (me, _) in &ks {
+            let got = c.broadcast_addresses(me);
+            let mut names: Vec<PublicKey> = got.iter().map(|(n, _)| *n).collect();
+            let before = names.len();
+            names.sort();
+            names.dedup();
+            if names.len() != before { failures.push(format!("broadcast_addresses returns a member twice (committee of {})", stakes.len())); }
+            if names.contains(me) { failures.push("broadcast_addresses contains the caller itself".to_string()); }
+            if names.len() != stakes.len() - 1 { failures.push(format!("broadcast_addresses returns {} of the {} other members", names.len(), stakes.len() - 1)); }
+            for (n, a) in &got {
+                if c.address(n) != Some(*a) { failures.push("broadcast_addresses pairs a member with another member's address".to_string()); }
+            }
+        }
+    }
+    let tc = tc_with(5, &[(0, 3), (1, 0), (2, 4)]);
+    if tc.high_qc_rounds() != vec![3, 0, 4] { failures.push(format!("TC::high_qc_rounds() = {:?}, the entries carry [3, 0, 4]", tc.high_qc_rounds())); }
+    for f in failures.iter().take(4) { println!("FAILING-INPUT property=ASSUMED {}", f); }
+    assert!(failures.is_empty(), "an assumed contract does not hold on the real code: {:?}", failures);
+}
